@@ -200,10 +200,10 @@ def translate_water():
     documented 0.9982 (water at 20 C) when the literal cannot be read"""
     if not _WATER:
         from fractions import Fraction
-        from ..translators.neutron import neutron_constants
+        from ..translators.neutron import water_constants
         from ..translate import Unreadable
         try:
-            _WATER.append(neutron_constants()["nsf_water"]["H"])
+            _WATER.append(water_constants()["nsf_water"]["H"])
         except Unreadable:
             _WATER.append(Fraction("0.9982"))
     return _WATER[0]
@@ -320,7 +320,7 @@ FIXED = [
 
 def run(run: Run) -> int:
     pt = import_repo()
-    run.prove(generated=["Constants", "NeutronConsts"])
+    run.prove(generated=["Constants", "NeutronConsts", "NeutronWater"])
     quick = run.tier == "quick"
     orc = nc.Oracle(pt)
     tl = nc.table_lines(pt.elements, base.me_exact())
